@@ -229,7 +229,7 @@ def check_misc(ctx, a, b, c):
 
 def formats():
     out = []
-    for ip in ('0', '00', '000', '#,##0', '#,##0'):
+    for ip in ('0', '00', '000', '#,##0', '0,000', '00,000'):
         for fp in ('', '.0', '.00', '.000', '.0#', '.00#', '.#', '.0##'):
             for pct in ('', '%'):
                 out.append(ip + fp + pct)
@@ -255,10 +255,12 @@ def ref_text(x, fmt):
     int_digits, _, frac_digits = digits.partition('.')
     int_digits = int_digits.lstrip('0').rjust(min_int, '0')
     if thousands:
-        int_digits = f'{int(int_digits):,}'.rjust(0) if int_digits.strip(
-            '0') else int_digits
-        if not int_digits.strip('0,'):
-            int_digits = '0' * min_int
+        # (the zeros the format pads with are grouped like digits: 0,012)
+        groups, rest = [], int_digits
+        while rest:
+            groups.append(rest[-3:])
+            rest = rest[:-3]
+        int_digits = ','.join(groups[::-1])
     keep = fp.count('0')
     while len(frac_digits) > keep and frac_digits.endswith('0'):
         frac_digits = frac_digits[:-1]
@@ -299,7 +301,8 @@ def short_strings(maxlen=3):
             yield ''.join(t)
 
 
-NUMBERS = [3.0, 3, 12.5, -7, 0, 0.25, 100, -0.5, 1234.5678, True, False]
+NUMBERS = [3.0, 3, 12.5, -7, 0, 0.25, 100, -0.5, 1234.5678, True, False,
+           0.00001, -1.5e-7]
 TEXT_XS = [0, 1, 0.5, 1.5, 2.5, 0.505, 0.125, 2.675, 1.005, 1234.5,
            1234567.891, 0.045, 99.995, 0.995, 12, 0.1, 1e-3, 5, 1000,
            999.5, 0.0049, 0.005, 7.25, 10.5]
